@@ -66,6 +66,13 @@ LookupAgree == \A a \in DOMAIN axes : \A v \in Probes : IndicesOfImpl(axes[a], v
 (* a rejected insert changes nothing *)
 RejectedNoChange == [][last' = "BinNotFound" => counts' = counts]_vars
 
+(* Refinement of the module whose invariant (every count = number of observations of the history in that cell) is PROVED  *)
+(* for every grid size and every history by TLAPS (HistAlg.tla, proofs in HistProof.tla): an observation is mapped to the *)
+(* flat cell it falls into (0 when some axis has no bin for it).                                                          *)
+CellOf(pt) == LET ix == ImplIndexOfOn(axes, pt) IN IF ix = <<NONE>> THEN 0 ELSE Flat(GridShape(axes), ix) + 1
+PP == INSTANCE HistAlg WITH NC <- ShapeProd(GridShape(axes)), cells <- [k \in 1..Len(hist) |-> CellOf(hist[k])]
+RefinesProof == PP!Spec
+
 EmitInv ==
     (Emit /\ Len(hist) = Depth) =>
         PrintT(<<"REPLAY", ToJson([ev |-> "hist", axes |-> axes, pts |-> hist])>>)
